@@ -48,6 +48,8 @@ def roundtrip_variants(tier):
          # options given as expressions / left to defaults that are expressions of other options
          # an option explicitly set to None although its default is an expression of another option
          ("explicit-none", "lsn", 1.0, dict(SMALL, target_outer_lower_poloidal_spacing_length=None), None),
+         # the same, but the FIRST grid comes from the Python API / GUI path (options dict in memory), and is then regenerated from its embedded inputs through the command line
+         ("api:explicit-none", "lsn", 1.0, dict(SMALL, target_outer_lower_poloidal_spacing_length=None, nx_sol=4), None),
          ("defaults-that-are-expressions", "lsn", -1.0, {k: v for k, v in SMALL.items() if k not in ("psinorm_pf", "nx_sol", "xpoint_poloidal_spacing_length")}, None)]
     if tier == "thorough":
         no = {k: v for k, v in SMALL.items() if k not in ("target_all_poloidal_spacing_length", "xpoint_poloidal_spacing_length")}
@@ -105,7 +107,7 @@ def run(chk):
 
     def rt(v):
         name, fam, sgn, opts, raw = v
-        return impl("roundtrip", dict(family=fam, sign=sgn, options=opts, raw_yaml=raw, workdir=os.path.join(tmp, name)), 2400)
+        return impl("roundtrip", dict(family=fam, sign=sgn, options=opts, raw_yaml=raw, workdir=os.path.join(tmp, name.replace(":", "_")), first_via_api=name.startswith("api:")), 2400)
     with ThreadPoolExecutor(max_workers=min(len(V), 6)) as ex:
         R = list(ex.map(rt, V))
     allowed_text = {"hypnotoad_inputs", "Python_version", "module_versions"}
